@@ -387,7 +387,7 @@ def check_readers(ctx, cases, ev, stats):
                 ok = stream == data
                 want = "the file itself"
             elif mod in ZIP_MODULES:
-                _, _, _, cdoff = zip_sections(data)
+                cdoff = zipfile.ZipFile(io.BytesIO(data)).start_dir
                 want = [("zipdir.bin", data[cdoff:]), ("contents.zip", data)]
                 ok = tar_members(stream) == want
             elif mod == "mach-o":
@@ -415,6 +415,14 @@ def check_readers(ctx, cases, ev, stats):
 
 
 TEMP_STATUS = (500, 502, 503, 504, 507)
+
+
+def enc_on(c, a):
+    """did relic offer/use compression on this attempt?  (Go's transport adds its own `Accept-Encoding: gzip` when relic sets
+    none, so the header alone does not tell)"""
+    if py_select(c["advertised"]):
+        return a["content_enc"] != ""
+    return c["advertised"] != "" and a["accept_enc"] == c["advertised"]
 
 
 def py_select(advertised):
@@ -449,8 +457,8 @@ def check_transport(ctx, cases, ev, stats):
             if not early and not a.get("body_sha") and a["behaviour"] not in ("reset", "eof"):
                 ctx.violation("C09:transport:body-unreadable", "attempt %d: the host could not decode the request body: %s" % (k, a.get("body_err")), {"cases": [rep]})
                 break
-            want_enc = py_select(c["advertised"]) if a["accept_enc"] else ""
-            if a["content_enc"] != want_enc:
+            want_enc = (py_select(c["advertised"]), "")
+            if a["content_enc"] not in want_enc:
                 ctx.violation("C09:transport:encoding-choice", "attempt %d used Content-Encoding %r where the advertised %r calls for %r" %
                               (k, a["content_enc"], c["advertised"], want_enc), {"cases": [rep]})
                 break
@@ -464,11 +472,11 @@ def check_transport(ctx, cases, ev, stats):
             ctx.violation("C09:transport:attempts", "%d attempts for %d servers" % (len(atts), L), {"cases": [rep]})
         seen406 = False
         for k, a in enumerate(atts):
-            if seen406 and (a["content_enc"] or a["accept_enc"]):
+            if seen406 and enc_on(c, a):
                 ctx.violation("C09:transport:encoding-after-406", "attempt %d still negotiates compression after a 406" % k, {"cases": [rep]})
                 break
             code = a["behaviour"].split("-")[0]
-            if (code == "406" or code == "406enc") and a["accept_enc"]:
+            if (code == "406" or (code == "406enc" and a["content_enc"])) and enc_on(c, a):
                 seen406 = True
         # 4. model: deterministic histories only (a host that answers before reading the body, or drops the connection, is
         #    seen by the client either as its status or as a connection error depending on timing)
@@ -477,11 +485,11 @@ def check_transport(ctx, cases, ev, stats):
             outs = []
             for a in atts:
                 b = a["behaviour"]
-                outs.append(200 if b == "ok" else (406 if a["accept_enc"] or a["content_enc"] else 200) if b == "406enc" else int(b))
+                outs.append(200 if b == "ok" else (406 if a["content_enc"] else 200) if b == "406enc" else int(b))
 
             def cb(out, c=c, atts=atts, rep=rep):
                 matt, res = out
-                obs = [[a["host"], 1 if a["accept_enc"] else 0] for a in atts]
+                obs = [[a["host"], 1 if enc_on(c, a) else 0] for a in atts]
                 kind = 0 if c["result"] == "ok" else 1
                 if matt != obs or res[0] != kind:
                     ctx.violation("C09:correspondence:dorequest", "model of doRequest and the real client disagree: model attempts %s result %s, observed %s %s" %
@@ -515,6 +523,11 @@ def raise_stack_limit():
 
 def run(ctx, replay=None):
     raise_stack_limit()
+    if replay:
+        # the drivers are deterministic functions of (seed, tier): a replay re-runs them with the recorded pair and the
+        # recorded case is re-evaluated together with the rest (schedule-dependent findings are re-explored, not replayed)
+        rp = json.load(open(replay))
+        ctx.seed, ctx.tier = int(rp.get("seed", ctx.seed)), rp.get("tier", ctx.tier)
     st = ctx.prepare(["C09_gen"], ["C09"], "C09.Run")
     fp_prefixes = ["signers/apk", "lib/signappx", "lib/authenticode", "lib/fruit/csblob", "lib/zipslicer", "signers:", "signers/zipbased", "signers/msi",
                    "signers/macho", "signers/dmg", "cmdline/remotecmd", "lib/compresshttp", "internal/httperror:.FromResponse"]
